@@ -83,6 +83,9 @@ func genTxnSchema(rng *rand.Rand, withRefs bool) TxnSchema {
 			{Name: "is", Type: ColType{Kind: "set", Key: "integer", Min: 0, Max: -1}},
 			{Name: "im", Type: ColType{Kind: "map", Key: "integer", Val: "integer", Min: 0, Max: -1}},
 			{Name: "fixed", Type: ColType{Kind: "atom", Key: "string", Min: 1, Max: 1}, Immutable: true},
+			// collections with a finite bound above one (the code has paths that look at max alone)
+			{Name: "bs", Type: ColType{Kind: "set", Key: "integer", Min: 0, Max: 5}},
+			{Name: "bm", Type: ColType{Kind: "map", Key: "string", Val: "integer", Min: 0, Max: 4096}},
 		}
 		for _, c := range extra {
 			if rng.Intn(2) == 0 {
@@ -196,6 +199,8 @@ func newImplDB(ts TxnSchema) *ImplDB {
 type ResultJ struct {
 	Count int     `json:"count"`
 	Error *string `json:"error"`
+	// Details of an error result (not compared with the model)
+	Details string `json:"details,omitempty"`
 	UUID  string  `json:"uuid"`
 	Rows  []Row   `json:"rows"`
 }
@@ -262,6 +267,7 @@ func (im *ImplDB) transact(ops []OperationJ, afterTransact func(upd database.Upd
 		if r.Error != "" {
 			e := r.Error
 			rj.Error = &e
+			rj.Details = r.Details
 			ok = false
 		}
 		for i := range r.Rows {
@@ -617,7 +623,7 @@ func genTxn(rng *rand.Rand, ts TxnSchema, sh *shadow, nops int) TxnJ {
 	var tail []OperationJ
 	// index traffic: values of an index moving between existing rows inside one transaction, and
 	// inserts that claim the index values of an existing row (must be rejected unless that row goes)
-	switch rng.Intn(12) {
+	switch rng.Intn(15) {
 	case 0:
 		t.Ops = append(t.Ops, g.genIndexMove()...)
 	case 1:
@@ -648,6 +654,15 @@ func genTxn(rng *rand.Rand, ts TxnSchema, sh *shadow, nops int) TxnJ {
 		if op, ok := g.genOverlapMutation(); ok {
 			t.Ops = append(t.Ops, op)
 		}
+	case 11, 12:
+		// the same set / map column of one row mutated twice in one transaction (bounded and unbounded
+		// collections alike): the notification is the net difference of both
+		t.Ops = append(t.Ops, g.genDoubleMutate()...)
+	case 13, 14:
+		// a row of a non-root table holding an index value is looked at, then replaced: its only referrer
+		// is pointed at a new row carrying the same index value, so the old row is garbage collected and
+		// the duplicate exists only inside the transaction
+		t.Ops = append(t.Ops, g.genGcHandover()...)
 	case 2, 3:
 		// a column of an existing row goes back to its default value (by update, or by deleting
 		// every element / key): the encodings that leave default values out must still say so
@@ -953,4 +968,104 @@ func (g *txnGen) genOverlapMutation() (OperationJ, bool) {
 		arg = ks
 	}
 	return OperationJ{Op: "mutate", Table: x.t.Name, Mutations: []MutationJ{{Col: x.c.Name, Mutator: mut, Val: nativeToOvsValue(arg)}}, Where: byUUID(x.u)}, true
+}
+
+// genDoubleMutate: two (sometimes three) insert / delete mutations of the same collection column of one row
+func (g *txnGen) genDoubleMutate() []OperationJ {
+	type cand struct {
+		t TableSpec
+		c ColSpec
+		u string
+	}
+	var cands []cand
+	for _, t := range g.ts.Spec.Tables {
+		for _, u := range g.sh.uuids(t.Name) {
+			for _, c := range t.Cols {
+				if !c.Immutable && (c.Type.Kind == "set" || c.Type.Kind == "map") && c.Type.Key != "uuid" && c.Type.Val != "uuid" {
+					cands = append(cands, cand{t, c, u})
+				}
+			}
+		}
+	}
+	if len(cands) == 0 {
+		return nil
+	}
+	x := cands[g.rng.Intn(len(cands))]
+	var ops []OperationJ
+	var last *Value
+	for k := 2 + g.rng.Intn(2); k > 0; k-- {
+		v := g.genColValue(x.c)
+		mut := []string{"insert", "insert", "delete"}[g.rng.Intn(3)]
+		if mut == "delete" && last != nil && g.rng.Intn(2) == 0 {
+			v = last // take out again what was just put in
+		}
+		last = v
+		ops = append(ops, OperationJ{Op: "mutate", Table: x.t.Name, Mutations: []MutationJ{{Col: x.c.Name, Mutator: mut, Val: nativeToOvsValue(v)}}, Where: byUUID(x.u)})
+	}
+	return ops
+}
+
+// genGcHandover: see genTxn
+func (g *txnGen) genGcHandover() []OperationJ {
+	for _, t := range g.ts.Spec.Tables {
+		if t.IsRoot || len(t.Indexes) == 0 {
+			continue
+		}
+		for _, old := range g.sh.uuids(t.Name) {
+			// the referrers of `old`: exactly one (table, column, row), through a strong set / optional reference
+			type ref struct {
+				pt  TableSpec
+				col ColSpec
+				pu  string
+			}
+			var refs []ref
+			for _, pt := range g.ts.Spec.Tables {
+				for _, c := range pt.Cols {
+					for _, pu := range g.sh.uuids(pt.Name) {
+						for _, tg := range colRefTargets(c, g.sh.rows[pt.Name][pu][c.Name]) {
+							if tg[0] == t.Name && tg[1] == old && tg[2] == "strong" {
+								refs = append(refs, ref{pt, c, pu})
+							}
+						}
+					}
+				}
+			}
+			if len(refs) != 1 || (refs[0].col.Type.Kind != "set" && refs[0].col.Type.Kind != "opt") || refs[0].col.RefTable != t.Name {
+				continue
+			}
+			rf := refs[0]
+			cur := g.sh.rows[t.Name][old]
+			row := Row{}
+			for _, c := range t.Cols {
+				if v := cur[c.Name]; v != nil && !(c.RefTable != "" || c.ValRefTable != "") {
+					row[c.Name] = nativeToOvsValue(v)
+				}
+			}
+			nu := g.sh.fresh()
+			g.inserted[t.Name] = append(g.inserted[t.Name], nu)
+			var nv *Value
+			pv := g.sh.rows[rf.pt.Name][rf.pu][rf.col.Name]
+			if rf.col.Type.Kind == "opt" {
+				a := AU(nu)
+				nv = VO(&a)
+			} else {
+				nv = VS()
+				for _, a := range pv.S {
+					if a.S != old {
+						nv.S = append(nv.S, a)
+					}
+				}
+				nv.S = append(nv.S, AU(nu))
+			}
+			look := OperationJ{Op: "select", Table: t.Name, Where: byUUID(old)}
+			if g.rng.Intn(2) == 0 {
+				zero := 0
+				look = OperationJ{Op: "wait", Table: t.Name, Where: byUUID(old), Columns: []string{"name"}, Until: "==", Rows: []Row{{"name": nativeToOvsValue(cur["name"])}}, Timeout: &zero}
+			}
+			return []OperationJ{look,
+				{Op: "insert", Table: t.Name, UUID: nu, Row: row},
+				{Op: "update", Table: rf.pt.Name, Row: Row{rf.col.Name: nativeToOvsValue(nv)}, Where: byUUID(rf.pu)}}
+		}
+	}
+	return nil
 }
